@@ -197,13 +197,28 @@ def _concrete_key(key):
 def branch(E, st, cond, line, tag):
     """fork on a BoolRef: returns [(state, taken_bool)] without infeasible sides"""
     res = []
-    if not is_false(cond):
+    if not is_false(cond) and E.feasible(st, cond):
         s1 = st.fork(); s1.assume(cond); s1.trace.append("%s:%s1" % (line, tag))
         res.append((s1, True))
-    if not is_true(cond):
+    if not is_true(cond) and E.feasible(st, z3.Not(cond)):
         s2 = st.fork(); s2.assume(z3.Not(cond)); s2.trace.append("%s:%s0" % (line, tag))
         res.append((s2, False))
     return res
+
+
+def feasible(E, st, cond):
+    """optional path pruning (contract attribute prune=True): a branch is dropped
+    only when z3 proves it infeasible; unknown/timeout keeps it"""
+    if not getattr(E.cur, "prune", False):
+        return True
+    sol = z3.Solver()
+    sol.set("timeout", 300)
+    for a in E.axioms_for(E.cur):
+        sol.add(a)
+    for a in st.pc:
+        sol.add(a)
+    sol.add(cond)
+    return str(sol.check()) != "unsat"
 
 
 def st_If(E, n, st):
@@ -501,6 +516,13 @@ def assume_inv(E, st, n, k, idx=None, extra=None):
     c = SpecCtx(E, st, E.cur_args, E.cur_h0, i=idx, extra=extra)
     for nm, f in inv(c):
         st.assume(f)
+    # instantiation hints: (assumed quantified axiom, [terms]) - the engine itself
+    # substitutes, so a hint can only add an instance of an axiom already assumed
+    hints = (getattr(E.cur, "loop_hints", None) or {}).get(k)
+    if hints:
+        for ax, terms in hints(c):
+            assert z3.is_quantifier(ax) and ax.is_forall() and ax.num_vars() == len(terms)
+            st.assume(z3.substitute_vars(ax.body(), *reversed(terms)))
 
 
 def iter_spec(E, node_iter, st, out):
@@ -729,6 +751,11 @@ def select_contract(E, q, argmap):
     cs = E.reg.get(q)
     if not cs:
         return None
+    want = (getattr(E.cur, "use", None) or {}).get(q)
+    if want is not None:
+        cs = [c for c in cs if c.case == want]
+    else:
+        cs = [c for c in cs if not getattr(c, "only_on_request", False)]
     best = None
     for c in cs:
         ok = True
@@ -796,7 +823,12 @@ def adapt(E, v, ty):
 def call_function(E, q, args, kw, st, out, node):
     fnode = E.funcs[q]
     module = q.split(".")[0]
-    argmap = C.bind_args(E, fnode, args, kw, st, out)
+    if fnode.args.vararg is not None and E.reg.get(q):
+        # pass-through wrappers (def f(*args, **kwargs)): bind by the contract's own parameter order
+        names = list(E.reg.get(q)[0].params)
+        argmap = dict(zip(names, args)); argmap.update(kw)
+    else:
+        argmap = C.bind_args(E, fnode, args, kw, st, out)
     c = E.select_contract(q, argmap)
     if c is None:
         raise OutOfSubset("call of %s which has no contract" % q)
@@ -848,6 +880,8 @@ def apply_contract(E, c, argmap, st, out, node):
         rty = rty(pre)
     if rty is None:
         resv = VNone()
+    elif isinstance(rty, V):
+        resv = rty
     else:
         resv, asm = fresh(rty, "res_" + c.name.split(".")[-1])
         for a in asm:
